@@ -169,19 +169,20 @@ class Intersection:
 
     @staticmethod
     def pairs_min_distance(
-        pairs: Tuple[float], curvea: Curve, curveb: Curve, tolerance: float = 1e-9
+        pairs: Tuple[float], curvea: Curve, curveb: Curve, tolerance: float = 1e-6
     ):
         """
         Filter the pairs (t*, u*) such abs(curvea(t*) - curveb(u*)) > tolerance
         """
         pairs = heavy.totuple(pairs)
+        if len(pairs) == 0:
+            return tuple()
         distances = np.empty(len(pairs), dtype="float64")
         for k, (pti, puj) in enumerate(pairs):
             pointati = curvea.eval(pti)
             pointbuj = curveb.eval(puj)
             distances[k] = np.linalg.norm(pointati - pointbuj)
-        distances = np.abs(distances)
-        matchs = np.abs(distances - np.min(distances)) < tolerance
+        matchs = np.abs(distances) < tolerance
         pairs = np.array(pairs, dtype="float64")[matchs]
         return heavy.totuple(pairs)
 
